@@ -67,6 +67,8 @@ TRUSTED_EXTRA = (
     "refuses class-level expressions outside {set literal, set(), X._ATTR_NOT_TO_SERIALIZE.union(...), |}); "
     "its output is cross-checked against run-time introspection and against the restored __dict__ of real objects on every run",
     "C20: values other than multiprocessing.Value / Path / locks are abstracted to numbers in the model (pickle copies them by value)",
+    "C20: cross-interpreter stream: /venv/bin/python sub-processes with PYTHONHASHSEED set by the harness, multiprocessing 'spawn'; "
+    "a difference also shown by an unserialized twin of the reader's interpreter is not attributed to serialization",
 )
 
 _TABLE: dict[str, Any] | None = None
@@ -885,6 +887,14 @@ def core_cases() -> list[dict[str, Any]]:
             cases.append({"kind": "discipline", "recipe": r, "moment": m, "seed": 6, "blind": True,
                           "edits": [["jac-approx", 1, "1/1024", 0], ["use", 0], ["fd-opt-step", -1]]})
     cases.append({"kind": "discipline", "recipe": "Sellar1", "moment": "executed", "seed": 7, "edits": [["jac-approx", 0, "1/1024", 1]]})
+    # exact stream: integer coefficients, dyadic step - the copy must return the difference quotient of the step
+    # that was set; approximated in two processes: the copy too runs the perturbed points outside its own process
+    for m in ("fresh", "executed", "linearized"):
+        for mode in (0, 1):
+            cases.append({"kind": "discipline", "recipe": "AffineDisc", "moment": m, "seed": 8 + mode, "cache": "none" if mode else "SimpleCache",
+                          "serializer": "gemseo" if mode else "pickle", "edits": [["jac-approx", mode, "1/1024" if mode else "1/128", 0]]})
+    cases.append({"kind": "discipline", "recipe": "AffineDisc", "moment": "executed", "seed": 8, "edits": [["jac-approx", 0, "1/256", 1]]})
+    cases.append({"kind": "discipline", "recipe": "AffineDisc", "moment": "fresh", "seed": 9, "blind": True, "edits": [["jac-approx", 1, "1/256", 1]]})
     cases.append({"kind": "discipline", "recipe": "Sellar1", "moment": "executed", "seed": 7, "serializer": "gemseo",
                   "edits": [["lin-mode", 5], ["fd-opt-step", -1]]})
     cases.append({"kind": "discipline", "recipe": "MDOChain", "moment": "fresh", "seed": 7, "blind": True, "edits": [["lin-mode", 2]]})
@@ -1399,7 +1409,8 @@ def run(ctx) -> Result:
     )
     res.assumptions = [
         "pickle copies plain values by value (validated by the identity-disjointness scan on every restored object)",
-        "objects are restored in the same process or in one with the same GEMSEO sources (class attributes are not part of the state)",
+        "objects are restored by the same GEMSEO sources: in the same process, or in another interpreter of the same installation with another hash seed (class attributes are not part of the state)",
+        "the iteration order of a set of SymPy symbols is a function of the interpreter and of the set (model AD; observed once per expression and interpreter)",
         "a file-based cache shared by the original and its copy is used by one of them at a time (the twin protocol of the harness)",
     ]
     rng = ctx.rng
